@@ -17,12 +17,17 @@ use vrl::value::{Kind, Secrets, Value};
 use crate::targets::{FaultMode, MonTarget};
 use crate::{guarded, kinds, probe, wire};
 
-pub fn functions(with_probe: bool) -> Vec<Box<dyn Function>> {
+static FNS_PLAIN: std::sync::LazyLock<Vec<Box<dyn Function>>> =
+    std::sync::LazyLock::new(vrl::stdlib::all);
+static FNS_PROBE: std::sync::LazyLock<Vec<Box<dyn Function>>> = std::sync::LazyLock::new(|| {
     let mut fns = vrl::stdlib::all();
-    if with_probe {
-        fns.push(Box::new(probe::Probe));
-    }
+    fns.push(Box::new(probe::Probe));
     fns
+});
+
+/// The function table is built once per process (it is expensive under Miri).
+pub fn functions(with_probe: bool) -> &'static [Box<dyn Function>] {
+    if with_probe { &FNS_PROBE } else { &FNS_PLAIN }
 }
 
 fn target_path_json(p: &vrl::path::OwnedTargetPath) -> J {
@@ -142,7 +147,7 @@ pub fn compile(req: &J) -> Compiled {
     };
     probe::reset_compile();
     let fns = functions(with_probe);
-    let res = guarded(|| compile_with_state(src, &fns, &state, config));
+    let res = guarded(|| compile_with_state(src, fns, &state, config));
     match res {
         Err(p) => {
             out.insert("panic".into(), p);
